@@ -16,6 +16,9 @@
 #include "gm2calc/gm2_error.h"
 #include "gm2_uncertainty_helpers.h"
 
+#include <functional>
+#include <pthread.h>
+#include <semaphore.h>
 #include <climits>
 #include <iostream>
 #include <memory>
@@ -732,10 +735,35 @@ struct Exec {
    }
 
    // ---------------------------------------------------------------- driver
+   // ---- client threads: an op line may begin with "@1" or "@2": it is then executed by that long-lived client thread
+   // (C call and mirror call alike) while the dispatching thread waits -- strictly one at a time, so a history stays
+   // a deterministic sequence, but handles cross threads the way they do in a thread pool: created by one thread, used
+   // by another, freed by a third.  State a wrapper keeps per thread (thread_local caches) meets such histories.
+   struct ClientPool {
+      struct Slot { pthread_t th; sem_t start, done; std::function<void()> job; };
+      Slot slot[2]; bool up = false;
+      static void* loop(void* p) { Slot* s = (Slot*)p; for (;;) { sem_wait(&s->start); s->job(); sem_post(&s->done); } return nullptr; }
+      void ensure() { if (up) return; for (auto& s : slot) { sem_init(&s.start, 0, 0); sem_init(&s.done, 0, 0); pthread_create(&s.th, nullptr, loop, &s); } up = true; }
+      void run_on(int k, std::function<void()> f) { ensure(); Slot& s = slot[(k - 1) & 1]; s.job = std::move(f); sem_post(&s.start); sem_wait(&s.done); }
+   };
+   static ClientPool& pool() { static ClientPool p; return p; }
+   uint64_t cross_thread_ops = 0;
+
    void exec_line(const std::string& line)
    {
-      const std::vector<std::string> t = sim::split(line);
+      std::vector<std::string> t = sim::split(line);
       if (t.empty() || t[0][0] == '#') return;
+      if (t[0][0] == '@') {
+         const int k = (t[0].size() > 1 && t[0][1] >= '0' && t[0][1] <= '9') ? (t[0][1] - '0') % 3 : 0;
+         t.erase(t.begin());
+         if (t.empty()) return;
+         if (k != 0) { ++cross_thread_ops; if (stats) stats->add("ops_on_client_threads"); pool().run_on(k, [this, &t] { exec_tokens(t); }); return; }
+      }
+      exec_tokens(t);
+   }
+
+   void exec_tokens(const std::vector<std::string>& t)
+   {
       if (t[0] == "m") op_m(t);
       else if (t[0] == "mfill") op_mfill(t);
       else if (t[0] == "tw") op_tw(t);
